@@ -292,7 +292,7 @@ func TestC11(t *testing.T) {
 		fmt.Println("REPLAY case passed (5 fresh processes)")
 		return
 	}
-	ev.Rule("generated trial descriptions: 2..64 goroutines, GOMAXPROCS 1..16, per goroutine 1-6 operations from {From16Bit/To16Bit of every space (lazily built tables), 8-bit decode/encode, LineariseColor, EncodeColor, Linearise/EncodeImage with parallelism 1..8 on per-goroutine destinations and shared read-only sources (RGBA64, NRGBA, paletted, Gray16, CMYK, YCbCr), transforms into per-goroutine tiles of one shared canvas, transforms of 128x40 structured sources (flat rows, flat columns, one colour, checkers, letterbox, mostly transparent; RGBA64/NRGBA64/NRGBA/RGBA) with 2..16 workers, ConvertImageTo*, the four loaders on shared byte slices (well-formed files, and files rejected early or late with the error text compared), the ICC profile reader on 12 profiles with distinct headers (with rejected headers in between), chromatic adaptation / Lab, XYZ transforms}, start shape one barrier / two waves / per-goroutine Gosched counts; an eighth are load storms (16..64 goroutines each loading 3-6 of 240 files with 80 distinct profiles, repeatedly, most of them moving on through the family by 1 or 7 files per repetition); an eighth of the trials are crowds of 40..160 goroutines running image transforms of a 96x64 image with 2..16 workers each; three quarters of the trials put the FIRST call to the same lazily built table on >= 2 goroutines behind the same barrier. Each trial runs in a fresh process built with -race from the current tree. Oracle: race detector (exit 66) + every operation's result digest equals the digest from a sequential process running the same operation lists with every image transform at parallelism 1. non-trivial = distinct trial with a first-use collision or an image transform with parallelism > 1")
+	ev.Rule("generated trial descriptions: 2..64 goroutines, GOMAXPROCS 1..16, per goroutine 1-6 operations from {From16Bit/To16Bit of every space (lazily built tables), 8-bit decode/encode, LineariseColor, EncodeColor, Linearise/EncodeImage with parallelism 1..8 on per-goroutine destinations and shared read-only sources (RGBA64, NRGBA, paletted, Gray16, CMYK, YCbCr), transforms into per-goroutine tiles of one shared canvas, transforms of 128x40 structured sources (flat rows, flat columns, one colour, checkers, letterbox, mostly transparent; RGBA64/NRGBA64/NRGBA/RGBA) with 2..16 workers, ConvertImageTo*, the four loaders on shared byte slices (well-formed files, and files rejected early or late with the error text compared), the ICC profile reader and Description on 80 profiles with distinct headers and descriptions (with rejected headers in between), chromatic adaptation / Lab, XYZ transforms}, start shape one barrier / two waves / per-goroutine Gosched counts; an eighth are load storms (16..64 goroutines each loading 3-6 of 240 files with 80 distinct profiles, repeatedly, most of them moving on through the family by 1 or 7 files per repetition); an eighth of the trials are crowds of 40..160 goroutines running image transforms of a 96x64 image with 2..16 workers each; three quarters of the trials put the FIRST call to the same lazily built table on >= 2 goroutines behind the same barrier. Each trial runs in a fresh process built with -race from the current tree. Oracle: race detector (exit 66) + every operation's result digest equals the digest from a sequential process running the same operation lists with every image transform at parallelism 1. non-trivial = distinct trial with a first-use collision or an image transform with parallelism > 1")
 	ev.Assume("the Go race detector's happens-before analysis; schedules are explored only as far as the Go scheduler varies them")
 	// phase 1: rapid only draws the trial descriptions (cheap); phase 2 executes them 8 at a time
 	type item struct {
